@@ -124,14 +124,16 @@ def parseExp (e : String) : Option Exp :=
   | _ => none
 
 /-- run the auto-cleanup hook for each new attached manifest, in version order; returns the store, the removed paths and
-    whether the hook panicked -/
-def runAutos (t : Int) (tags : List Nat) : List Manifest → Nat → Store → List Path → Store × List Path × Bool
-  | [], _, s, rm => (s, rm, false)
-  | m :: rest, dsv, s, rm =>
-    match autoCleanupHook t dsv tags m s with
+    whether the hook panicked.  `commit_transaction` hands the hook the dataset it committed on top of — the read version,
+    checked out if the caller's handle is at another version (a restore through an old handle), or the latest one after a
+    rebase — so the hook's handle is at the new version minus one -/
+def runAutos (t : Int) (tags : List Nat) : List Manifest → Store → List Path → Store × List Path × Bool
+  | [], s, rm => (s, rm, false)
+  | m :: rest, s, rm =>
+    match autoCleanupHook t (m.version - 1) tags m s with
     | .panic => (s, rm, true)
-    | .ran (.ok s' removed _) => runAutos t tags rest m.version s' (rm ++ removed)
-    | _ => runAutos t tags rest m.version s rm
+    | .ran (.ok s' removed _) => runAutos t tags rest s' (rm ++ removed)
+    | _ => runAutos t tags rest s rm
 
 def history (st : St) (op : String) (toks : List String) (t : Int) (e : Exp) : St × String :=
   let descs : List (Head × Manifest) :=
@@ -144,8 +146,6 @@ def history (st : St) (op : String) (toks : List String) (t : Int) (e : Exp) : S
     if e.f = "-" then [] else
       ((e.f.splitOn ",").map parsePath).filterMap (fun p =>
         if newMans.any (fun mf => mf.path = p) then none else some { path := p, mtime := t, size := 0 })
-  let dsv0 : Nat :=
-    if op = "restore" then st.held.getD (latestVersion st.store) else latestVersion st.store
   let s1 : Store := { mans := st.store.mans ++ newMans, files := st.store.files ++ newFiles }
   let ok := e.status = "ok"
   -- tags / held handle
@@ -171,7 +171,7 @@ def history (st : St) (op : String) (toks : List String) (t : Int) (e : Exp) : S
         (removePaths s1 [p], if s1.files.any (fun f => f.path = p) then [p] else [])
       | none => (s1, [])
     else (s1, [])
-  let (s3, rm, panicked) := runAutos t (tags1.map (·.2)) (newMans.map (·.m)) dsv0 s2 rm0
+  let (s3, rm, panicked) := runAutos t (tags1.map (·.2)) (newMans.map (·.m)) s2 rm0
   let status :=
     if panicked then "panic"
     else if e.status = "panic" then "panic_unexpected" else e.status
